@@ -162,3 +162,57 @@ Example C18_once_example :
   /\ add_failure (fst (add_failure c18_store 2 8 3000%Z)) 2 8 4000%Z = (fst (add_failure c18_store 2 8 3000%Z), false)
   /\ alookup 2 (st_failures (fst (add_failure (fst (add_failure c18_store 2 8 3000%Z)) 2 8 4000%Z))) = Some [(7, 0%Z); (8, 3000%Z)].
 Proof. vm_compute. repeat split; reflexivity. Qed.
+
+(* ---------- service layer (src/broker/service.rs: HTTP handler + trigger_update + restart from the meta file) ----------
+   Proofs/BrokerSvc.v.  svc_state = (in-memory store, store in the meta file); svc_step = the contract "the meta file is current
+   after every API call" (file := memory after every call, whatever the result); svc_restart = start again from the file. *)
+From UM Require Import Proofs.BrokerSvc.
+
+(* (i) after every call - every operation, every result, errors included - the file equals the memory, the memory is the
+   store operation's result and the reply is the store operation's reply *)
+Theorem C18_service_file_current : forall st o,
+  svc_file (fst (svc_step st o)) = svc_mem (fst (svc_step st o))
+  /\ svc_mem (fst (svc_step st o)) = fst (step (svc_mem st) o)
+  /\ snd (svc_step st o) = snd (step (svc_mem st) o).
+Proof. exact svc_step_current_full. Qed.
+Check C18_service_file_current : forall st o,
+  svc_file (fst (svc_step st o)) = svc_mem (fst (svc_step st o))
+  /\ svc_mem (fst (svc_step st o)) = fst (step (svc_mem st) o)
+  /\ snd (svc_step st o) = snd (step (svc_mem st) o).
+Print Assumptions C18_service_file_current.
+
+(* (iii) registering an address through the service (first time or again, AlreadyExisted included) and restarting the broker any
+   number of times leaves the address without reports, without the failed mark, registered, and not listed by get_failures
+   for any clock, ttl and quorum - until a new report arrives.  Derived from C18_reregister_clears and C18_quorum. *)
+Theorem C18_service_reregister_stays_clear : forall st a h i n now ttl q,
+  failures_wf (svc_mem st) ->
+  snd (svc_step st (OAddProxy a h i)) <> RErr E_MissingIndex ->
+  let st' := svc_run (fst (svc_step st (OAddProxy a h i))) (repeat EvRestart n) in
+  svc_file st' = svc_mem st'
+  /\ alookup a (st_failures (svc_mem st')) = None
+  /\ smem a (st_failed (svc_mem st')) = false
+  /\ amem a (st_proxies (svc_mem st')) = true
+  /\ ~ In a (snd (get_failures (svc_mem st') now ttl q)).
+Proof. exact svc_reregister_stays_clear. Qed.
+Check C18_service_reregister_stays_clear : forall st a h i n now ttl q,
+  failures_wf (svc_mem st) ->
+  snd (svc_step st (OAddProxy a h i)) <> RErr E_MissingIndex ->
+  let st' := svc_run (fst (svc_step st (OAddProxy a h i))) (repeat EvRestart n) in
+  svc_file st' = svc_mem st'
+  /\ alookup a (st_failures (svc_mem st')) = None
+  /\ smem a (st_failed (svc_mem st')) = false
+  /\ amem a (st_proxies (svc_mem st')) = true
+  /\ ~ In a (snd (get_failures (svc_mem st') now ttl q)).
+Print Assumptions C18_service_reregister_stays_clear.
+
+(* non-vacuity: on c18_store proxy 1 is listed (quorum 2); it registers again (AlreadyExisted), the broker restarts twice: not listed,
+   file = memory; a handler that skipped the persistence step for that reply would bring the two reports back (file of the state before) *)
+Example C18_service_example :
+  let st := (c18_store, c18_store) in
+  let st' := svc_run st [EvOp (OAddProxy 1 (Some 10) None); EvRestart; EvRestart] in
+  snd (get_failures (svc_mem st) 1500%Z 2000%Z 2) = [1]
+  /\ snd (svc_step st (OAddProxy 1 (Some 10) None)) = RErr E_AlreadyExisted
+  /\ snd (get_failures (svc_mem st') 1500%Z 2000%Z 2) = []
+  /\ svc_file st' = svc_mem st'
+  /\ snd (get_failures (svc_mem (svc_restart (fst (step (svc_mem st) (OAddProxy 1 (Some 10) None)), svc_file st))) 1500%Z 2000%Z 2) = [1].
+Proof. vm_compute. repeat split; reflexivity. Qed.
